@@ -95,7 +95,7 @@ func txSegs(tx *btc.Tx) (s []Seg) {
 // Commands of the alphabet, in the order of the specification's Cmds.
 // A name with a trailing digit is a second valid instance of the same wire command (see wireName).
 var allCmds = []string{"version", "verack", "addr", "inv", "getdata", "notfound", "getblocks", "getheaders", "headers", "headers2",
-	"tx", "txo1", "txo2", "block", "block2", "cmpctblock", "cmpctblock2", "cmpctblock3", "cmpctblock4", "getblocktxn", "getblocktxn1", "getblocktxn3", "blocktxn", "blocktxn2", "idle", "ping", "pong",
+	"tx", "txo1", "txo2", "block", "block2", "cmpctblock", "cmpctblock2", "cmpctblock3", "cmpctblock4", "getblocktxn", "getblocktxn1", "getblocktxn3", "blocktxn", "blocktxn2", "idle", "peersfull", "Bblock", "Bheaders", "ping", "pong",
 	"feefilter", "sendcmpct", "sendheaders", "getaddr", "getmp", "getmpdone", "xauth", "authack", "filterload", "unknown", "frame",
 	// block locators against a tree with a dead side branch (S1 - S2 forking off below the active tip)
 	"getheadersS", "getheadersP", "getheadersSA", "getheadersAS", "getheadersU", "getheadersT", "getheadersE", "getheadersEA", "getheadersXS", "getheadersXU",
@@ -251,7 +251,7 @@ func (w *World) valid(cmd string, nodeNonce []byte) []Seg {
 	case "blocktxn2": // for a block this connection never heard of
 		s := []Seg{segF(w.unkHash[0][:]), segC(1, 0)}
 		return append(s, txSegs(w.tx1)...)
-	case "idle": // no bytes: the peer stays silent while the node's tick runs
+	case "idle", "peersfull", "Bblock", "Bheaders": // no bytes from this peer: the environment acts (see isEnv)
 		return nil
 	case "ping", "pong", "feefilter":
 		return []Seg{segF([]byte{9, 8, 7, 6, 5, 4, 3, 2})}
